@@ -36,5 +36,6 @@ OwedAfterRefresh(due, owed, t) == IF due = t THEN t ELSE owed
 Missed(due, stopAts, t) == due # Off /\ t > due /\ \A a \in stopAts : a = Off
 
 \* census: timer goroutines alive at a quiescent instant with no call in progress
-CensusLegal(due, g) == g = (IF due # Off THEN 1 ELSE 0)
+\* (nothing may be left behind; whether a pending timer needs a goroutine at all is the implementation's business)
+CensusLegal(due, g) == g <= (IF due # Off THEN 1 ELSE 0)
 =============================================================================
